@@ -1688,7 +1688,11 @@ impl World {
                     return;
                 }
                 match (v.get(*idx), rkey) {
-                    (Some(m), Some(_)) => self.set_node_slot(*out, *m),
+                    // (a merged text handle does not keep its subtree alive in the model: once the last real holder
+                    // is dropped the nodes are gone from the model and the element of the snapshot is not judged)
+                    (Some(m), Some(_)) if !self.model.nodes[*m].dead && !(merged && self.model.nodes[*m].parent.is_none()) => {
+                        self.set_node_slot(*out, *m)
+                    }
                     _ => {
                         self.model.clear_slot(*out);
                         self.real.clear(*out);
